@@ -883,6 +883,28 @@ class Item:
                         continue
                     c = match_close(ftoks, o)
                     in_impl = True
+            # the type of the impl block the helper lives in (to spell out `Self` in the inlined body)
+            self_ty = None
+            stack = []
+            for q in range(0, st):
+                if ftoks[q].s == "{":
+                    # header = tokens back to the previous `;`, `}` or `{`
+                    hq = q - 1
+                    while hq >= 0 and ftoks[hq].s not in (";", "}", "{"):
+                        hq -= 1
+                    stack.append(texts(ftoks[hq + 1:q]))
+                elif ftoks[q].s == "}" and stack:
+                    stack.pop()
+            for hdr in reversed(stack):
+                if "impl" in hdr:
+                    h2 = hdr[hdr.index("impl") + 1:]
+                    if "for" in h2:
+                        h2 = h2[h2.index("for") + 1:]
+                    if "where" in h2:
+                        h2 = h2[:h2.index("where")]
+                    if h2 and "<" not in h2 and len(h2) <= 5:
+                        self_ty = "".join(h2)
+                    break
             # signature tokens: fn NAME ( params ) [-> T] {
             k = st
             while ftoks[k].s != "fn":
@@ -919,9 +941,12 @@ class Item:
                 params.append(cur)
             plist = []
             has_self = False
+            self_kind = None
             if params and texts(params[0]) and texts(params[0])[-1] == "self" and all(x in ("&", "mut", "self") or x.startswith("'") for x in texts(params[0])):
-                if not in_impl or texts(params[0]) == ["self"] or texts(params[0]) == ["mut", "self"]:
-                    continue          # by-value receivers move `self`: not inlined
+                if not in_impl:
+                    continue
+                p0 = [x for x in texts(params[0]) if not x.startswith("'")]
+                self_kind = "&mut" if p0[:2] == ["&", "mut"] else ("&" if p0[:1] == ["&"] else "value")
                 has_self = True
                 params = params[1:]
             for pr in params:
@@ -944,8 +969,15 @@ class Item:
                 hit = False
                 start = i
                 if T[i].s == name and T[i + 1].s == "(" and T[i].line != 0:
+                    recv = None
                     if has_self:
-                        hit = i >= 2 and T[i - 1].s == "." and T[i - 2].s == "self" and (i < 3 or T[i - 3].s != ".")
+                        # receiver `self` (body used as it is) or a plain local `x.name(..)` (bound to a fresh name that
+                        # replaces `self` in the helper's body); longer receiver expressions are not inlined
+                        hit = i >= 2 and T[i - 1].s == "." and IDENT_RE.fullmatch(T[i - 2].s or "") is not None and (i < 3 or T[i - 3].s not in (".", ":"))
+                        if hit and T[i - 2].s != "self":
+                            recv = T[i - 2].s
+                        if hit and T[i - 2].s == "self" and self_kind == "value":
+                            hit = False
                         start = i - 2
                     elif in_impl:
                         hit = i >= 3 and T[i - 1].s == ":" and T[i - 2].s == ":" and T[i - 3].s == "Self"
@@ -978,7 +1010,18 @@ class Item:
                         new += [Tok(" ", "let", line), Tok(" ", "__h%d" % (n + 1), line), Tok(" ", "=", line)] + [Tok((t.ws or " ") if j == 0 else t.ws, t.s, t.line) for j, t in enumerate(a)] + [Tok("", ";", line)]
                     for n, (mut, pn, ty) in enumerate(plist):
                         new += tokenize(" let %s%s: %s = __h%d;" % ("mut " if mut else "", pn, ty, n + 1), line0=line)
-                    new += [Tok((t.ws or " ") if j == 0 else t.ws, t.s, t.line) for j, t in enumerate(body)] + [Tok(" ", "}", line)]
+                    btoks = [Tok((t.ws or " ") if j == 0 else t.ws, t.s, t.line) for j, t in enumerate(body)]
+                    if self_ty:
+                        for bt in btoks:
+                            if bt.s == "Self":
+                                bt.s = self_ty
+                    if recv is not None:
+                        pre_ = {"&": "&", "&mut": "&mut ", "value": ""}[self_kind]
+                        new += tokenize(" let __hs = %s%s;" % (pre_, recv), line0=line)
+                        for bt in btoks:
+                            if bt.s == "self":
+                                bt.s = "__hs"
+                    new += btoks + [Tok(" ", "}", line)]
                     new[0].ws = T[start].ws or " "
                     T[start:ac + 1] = new
                     i = start
